@@ -665,7 +665,7 @@ class Spec:
             jobs.append(("enum", (lvl, 32768, 64), b"G /?a HTTP/1.0", t_, b""))
             jobs.append(("enum", (lvl, 32768, 4096), b"G /?a=1 HTTP/1.0", t_, b"\n"))
             # field lines (small read buffer: header tail re-used; large: not)
-            jobs.append(("enum", (lvl, 32768, 64), b"G / HTTP/1.0\r\n", t_, b""))
+            jobs.append(("enum", (lvl, 32768, 64), b"G / HTTP/1.0\r\n", t_ + (1 if lvl != 3 else 0), b""))
             jobs.append(("enum", (lvl, 32768, 4096), b"GET / HTTP/1.1\r\n", t_, b"\r\n\r\nGE"))
             jobs.append(("enum", (lvl, 32768, 96), b"G /?a HTTP/1.1\r\nx:1", t_, b"\na:1\n\nZ"))
             jobs.append(("enum", (lvl, 32768, 64), b"G / HTTP/1.0\r\nCookie:", t_, b"\r\n\r\n"))
